@@ -145,6 +145,90 @@ def install(R):
         return o
     R.fns["pandas.DataFrame"] = df_ctor
 
+    # ------------------------------------------------------------------ numeric frames: a matrix with labels ($matrix, $cols, $index)
+    def numeric_frame(matrix, cols, index):
+        o = Obj("DataFrame", tag="DataFrame")
+        o.fields["$bases"] = ["DataFrame"]
+        o.fields["$matrix"], o.fields["$cols"], o.fields["$index"] = matrix, cols, index
+        return o
+    R.numeric_frame = numeric_frame
+
+    def is_numeric_frame(v):
+        return isinstance(v, Obj) and v.tag == "DataFrame" and isinstance(v.fields.get("$matrix"), NdArr)
+
+    prev_hasattr = R.opaque_hasattr
+
+    def frame_hasattr(E, v, attr_):
+        if isinstance(v, Obj) and v.tag in ("DataFrame", "Series"):
+            return attr_ in ("iloc", "loc", "values", "columns", "index", "shape", "copy", "corr", "dtypes", "to_dict", "dropna", "apply")
+        return prev_hasattr(E, v, attr_)
+    R.opaque_hasattr = frame_hasattr
+
+    def attr_numeric(E, base, attr_, node):
+        if is_numeric_frame(base):
+            if attr_ == "iloc":
+                o = Obj("ILoc", tag="ILoc")
+                o.fields["$frame"] = base
+                return o
+            if attr_ == "values":
+                return base.fields["$matrix"]
+            if attr_ == "shape":
+                return tuple(base.fields["$matrix"].shape)
+            if attr_ == "columns":
+                return base.fields["$cols"]
+        return NotImplemented
+    R.attr_hooks.insert(0, attr_numeric)
+
+    prev_get, prev_set = R.getitem_hook, R.setitem_hook
+
+    def getitem_iloc(E, base, idx, node):
+        if isinstance(base, Obj) and base.tag == "ILoc":
+            return E.getitem(base.fields["$frame"].fields["$matrix"], idx, node)
+        return prev_get(E, base, idx, node)
+    R.getitem_hook = getitem_iloc
+
+    def setitem_iloc(E, base, idx, v, node):
+        if isinstance(base, Obj) and base.tag == "ILoc":
+            fr = base.fields["$frame"]
+            E.setitem(fr.fields["$matrix"], idx, v, node)
+            fr.events.append(("set", "iloc"))
+            return None
+        return prev_set(E, base, idx, v, node)
+    R.setitem_hook = setitem_iloc
+
+    def m_corr(E, recv, args, kwargs, node):
+        """pandas DataFrame.corr(): a square frame labelled by the columns on both sides; an entry is NaN for a constant column (0/0)"""
+        if not is_numeric_frame(recv):
+            raise Unsupported("corr of a non-numeric frame")
+        d = recv.fields["$matrix"].shape[1]
+        return numeric_frame(NdArr.fresh("corr", (d, d), "real", True), recv.fields["$cols"], recv.fields["$cols"])
+    R.methods[("DataFrame", "corr")] = m_corr
+
+    def m_copy_any(E, recv, args, kwargs, node):
+        if is_numeric_frame(recv):
+            o = numeric_frame(recv.fields["$matrix"].copy(), recv.fields["$cols"], recv.fields["$index"])
+            o.fields["$copy_of"] = recv
+            return o
+        return m_copy(E, recv, args, kwargs, node)
+    R.methods[("DataFrame", "copy")] = m_copy_any
+
+    def binop_hook(E, op, a, b, node):
+        """frame <op> number: the same labels around the element-wise result"""
+        if is_numeric_frame(a) and is_num_like(b):
+            from .npmodel import arr_binop
+            return numeric_frame(arr_binop(R, E, op, a.fields["$matrix"], b, node), a.fields["$cols"], a.fields["$index"])
+        return NotImplemented
+    R.binop_hook = binop_hook
+
+    prev_scale = R.fns.get("sklearn.preprocessing.scale")
+
+    def scale(E, X, **kw):
+        if is_numeric_frame(X):
+            return prev_scale(E, X.fields["$matrix"], **kw)
+        return prev_scale(E, X, **kw)
+    if prev_scale is not None:
+        R.fns["sklearn.preprocessing.scale"] = scale
+
     def concat(E, parts, axis=0, **kw):
         o = Obj("DataFrame", tag="DataFrame")
         o.fields["$bases"] = ["DataFrame"]
